@@ -7,7 +7,7 @@ INTERFACE lemmas (used by Proofs/Sb2Section.lean, Proofs/Sb2Image.lean, Properti
 import SpsdkVerif.Model.Sb2
 import SpsdkVerif.Model.Sb2Spec
 import SpsdkVerif.Proofs.Crypto
-import SpsdkVerif.Proofs.Misc
+import SpsdkVerif.Proofs.Sb2Base
 
 namespace SpsdkVerif.Sb2
 open SpsdkVerif SpsdkVerif.Sb2.Rom
@@ -25,11 +25,11 @@ theorem leEnc_length (n v : Nat) : (leEnc n v).length = n := Crypto.leEnc_length
 -- INTERFACE
 theorem leDec_leEnc (n v : Nat) (h : v < 256 ^ n) : leDec (leEnc n v) = v := by
   unfold leDec leEnc
-  rw [List.reverse_reverse, Misc.beDec_beEnc_mod, Nat.mod_eq_of_lt h]
+  rw [List.reverse_reverse, Base.beDec_beEnc_mod, Nat.mod_eq_of_lt h]
 
 -- INTERFACE: BCD version words are stored big-endian: `leEnc 2 (swap16 v)` read as big-endian is `v`
 theorem beDec_leEnc_swap16 (v : Nat) (h : v < 65536) : beDec (leEnc 2 (swap16 v)) = v := by
-  have hs : swap16 v = v % 256 * 256 + v / 256 := Misc.swap16_nat v h
+  have hs : swap16 v = v % 256 * 256 + v / 256 := Base.swap16_nat v h
   rw [hs]
   obtain ⟨a, b, ha, hb, rfl⟩ : ∃ a b, a < 256 ∧ b < 256 ∧ v = 256 * b + a :=
     ⟨v % 256, v / 256, by omega, by omega, by omega⟩
@@ -262,7 +262,7 @@ theorem bitLenF_gt (n : Nat) : ∀ (f x : Nat), 2 ^ n ≤ x → x ≤ f → n < 
       have := ih f (x / 2) (by omega) (by omega)
       omega
 
-theorem bitLen_le (x n : Nat) (h : x < 2 ^ n) : bitLen x ≤ n := Misc.bitLenF_le x x n h
+theorem bitLen_le (x n : Nat) (h : x < 2 ^ n) : bitLen x ≤ n := Base.bitLenF_le x x n h
 theorem bitLen_gt (x n : Nat) (h : 2 ^ n ≤ x) : n < bitLen x := bitLenF_gt n x x h (Nat.le_refl x)
 
 theorem fillWord_ok (p : Nat) (hp : p < 2 ^ 32) : fillWord p = .ok (Spec.fillPattern p) := by
